@@ -102,6 +102,7 @@ def strategy_(draw, tier):
     for d in g["nodes"].values():
         d["seq"] = d["seq"].replace("N", "A")
     lm = models.LinkModel(g["links"])
+    closed = gen_gaf.revisit_walks(g, lm) if not long_class else []
     lines, fasta = [], []
     for i in range(draw(st.integers(1, 6))):
         name = "rd%d" % i
@@ -109,7 +110,9 @@ def strategy_(draw, tier):
         if long_class:
             line, read = draw(long_record(g, lm, name, rnd))
         else:
-            line, read = draw(rc.realign_record(g, lm, name, rnd, comment=comment))
+            # walks that come back to a node (hairpins, inverted duplications) in about a third of the records
+            prefix = draw(st.sampled_from(closed)) if (closed and draw(st.integers(0, 2)) == 0) else None
+            line, read = draw(rc.realign_record(g, lm, name, rnd, comment=comment, prefix=prefix, max_len=3 if prefix else 5))
         lines.append(line)
         fasta.append(">%s\n%s\n" % (name, read))
     return {"gfa": gen_graph.gfa_text(g, with_seq=True, order_seed=draw(st.integers(0, 99))), "gaf": lines,
@@ -253,6 +256,11 @@ def run_case(case):
             cl.add("last_node_reverse_partially_covered")
         if edits:
             cl.add("edits")
+        seen_o = {}
+        for o_, n_ in steps:
+            seen_o.setdefault(n_, set()).add(o_)
+        if any(len(v) == 2 for v in seen_o.values()):
+            cl.add("node_visited_in_both_orientations")
         if any(n >= 40 and o in "ID" for n, o in ops):
             cl.add("indel>=40")
         if has_rev and edits:
